@@ -68,6 +68,12 @@ def cases(tier, seed):
                 out.append({"kind": "herm", "cls": f"herm:{sign}", "ratio": ratio, "sign": sign, "idx": idx, "seed": seed,
                             "maxn": maxn, "nseeds": 2 if tier == "quick" else 6, "n": n_})
                 idx += 1
+    for n_ in ([32, 48] if tier == "quick" else [16, 24, 32, 48, 64]):
+        for sign in ("pos", "neg_same"):
+            for k in range(2 if tier == "quick" else 4):
+                out.append({"kind": "herm", "cls": f"herm:{sign}:packed", "ratio": 0.8, "sign": sign, "idx": idx, "seed": seed,
+                            "maxn": maxn, "nseeds": 4 if tier == "quick" else 8, "n": n_, "packed": True})
+                idx += 1
     for cls in ("generic", "zero", "nilpotent", "lower_nilpotent", "zero_first_row", "zero_last_column", "rank1", "unitary", "upper_tri", "scaled"):
         for k in range(8 if tier == "quick" else 60):
             out.append({"kind": "bounded", "cls": "bounded:" + cls, "c": cls, "idx": idx, "seed": seed, "maxn": maxn, "nseeds": nseeds})
@@ -82,12 +88,18 @@ def run_case(spec, ctx, R):
     {"herm": _herm, "bounded": _bounded, "nonherm": _nonherm}[spec["kind"]](spec, ctx, R)
 
 
-def _spectrum(rng, n, ratio, sign):
+def _spectrum(rng, n, ratio, sign, packed=False):
     """Eigenvalues with |lambda_2/lambda_1| = ratio exactly (for n >= 2) and the requested sign pattern."""
     lam1 = 1.0 + rng.random() * 2.0
+    if rng.random() < 0.35:
+        lam1 = float(rng.choice([1.0, 1.0, 0.5, 2.0]))      # dominant modulus EXACTLY 1 (unitary-like scaling: ||A v|| -> 1) or a power of two
     if n == 1:
         return np.array([lam1 if sign.startswith("pos") else -lam1])
     rest = rng.random(n - 1) * ratio * lam1
+    if packed:
+        # all non-dominant eigenvalues packed just below the gap limit ([0.94, 1] * ratio * lambda_1): the iterate first rotates SLOWLY, the
+        # change per step grows for several iterations before it decays - "no improvement over the last steps" is not convergence
+        rest = ratio * lam1 * (1.0 - 0.0625 * rng.random(n - 1))
     rest[0] = ratio * lam1
     if n >= 4 and rng.random() < 0.5:
         rest[2] = rest[1]                      # repeated non-dominant eigenvalue
@@ -128,7 +140,9 @@ def _herm(spec, ctx, R):
     decoupled = sign.startswith("decoupled_first")
     if decoupled and n == 1:
         decoupled = False
-    e = _spectrum(rng, n - 1 if decoupled else n, r, "pos" if sign.endswith("pos") else ("neg_mixed" if decoupled else sign))
+    e = _spectrum(rng, n - 1 if decoupled else n, r, "pos" if sign.endswith("pos") else ("neg_mixed" if decoupled else sign), packed=bool(spec.get("packed")))
+    if spec.get("packed"):
+        ctx.hit("spectrum:packed_below_gap")
     scale = [1.0, 1.0, 1e-3, 1e3, 1e-9, 1e-13, 1e9, 1.0, 2.0 ** -56, 2.0 ** -60, 1e-30, 1e30, 2.0 ** -200][spec["idx"] % 13]
     if scale < 1e-15 or scale > 1e15:
         ctx.hit("scale:beyond_eps")
